@@ -651,7 +651,17 @@ class Sim:
     # -- teardown
     def close(self):
         # kill everything that may be left
+        # (names also holds processes started by puppets themselves -- the grandchild helpers of C07 -- which nobody
+        # else would ever collect when a run ends early)
         victims = set(self.puppets.keys()) | set(self.children.keys())
+        for p in self.names.keys():
+            if p and p > 1 and p not in victims and p != os.getpid():
+                try:
+                    with open("/proc/%d/comm" % p) as f:
+                        if f.read().strip() in ("pup", "cicada"):
+                            victims.add(p)
+                except OSError:
+                    pass
         if self.shell_pid:
             victims.add(self.shell_pid)
         for pid in victims:
